@@ -25,8 +25,17 @@ PATTERNS = {
 }
 
 
-def text(syms):
-    return ''.join(SYM[s] for s in syms)
+# white-space characters that are neither space, tab nor line break (the symbol NB of StringClean.tla)
+NB_CHARS = ['\xa0', '\x0c', '\u2003', '\x0b', '\x85', '\x1c', '\u3000']
+
+
+def nb_of(case):
+    """the real character that stands for NB in this case (the same one in the expected and the submitted text)"""
+    return NB_CHARS[(7 * len(case['expect']) + len(case['input'])) % len(NB_CHARS)]
+
+
+def text(syms, nb='\xa0'):
+    return ''.join(nb if s == 'NB' else SYM[s] for s in syms)
 
 
 def render(p, top=True):
@@ -58,12 +67,12 @@ def observe(case, pattern_tree):
                explain_minimums=None if case['explainMin'] == 'none' else case['explainMin'],
                explain_validation=None if case['explainVal'] == 'none' else case['explainVal'],
                invalid_msg=INVALID_MARK,
-               answers={'expect': text(case['expect']), 'msg': ANS_MARK})
+               answers={'expect': text(case['expect'], nb_of(case)), 'msg': ANS_MARK})
     if pattern_tree is not None:
         cfg['validation_pattern'] = render(pattern_tree)
     try:
         g = StringGrader(**cfg)
-        r = g(None, text(case['input']))
+        r = g(None, text(case['input'], nb_of(case)))
     except InvalidInput as e:
         return 'invalid_err' if str(e) == INVALID_MARK else 'short_err'
     except ConfigError:
@@ -135,8 +144,8 @@ def signature(case, allowed, observed):
         pat = render(PATTERNS[case['pid']])
     elif isinstance(case.get('pattern'), dict) and case['pattern'].get('k') != 'none':
         pat = render(case['pattern'])
-    return {'kind': case.get('kind', 'trace'), 'flags': case['f'], 'expect': text(case['expect']),
-            'input': text(case['input']), 'pattern': pat, 'any': case['any'], 'nonempty': case['nonempty'],
+    return {'kind': case.get('kind', 'trace'), 'flags': case['f'], 'expect': text(case['expect'], nb_of(case)),
+            'input': text(case['input'], nb_of(case)), 'pattern': pat, 'any': case['any'], 'nonempty': case['nonempty'],
             'min_length': case['minLength'], 'min_words': case['minWords'], 'explain_minimums': case['explainMin'],
             'explain_validation': case['explainVal'], 'allowed': allowed, 'observed': observed}
 
@@ -178,7 +187,7 @@ def rand_member(rng, p):
 
 
 def rand_cases(rng, n):
-    alpha = ['a', 'A', 'b', 'B', '1', 'SP', 'SP', 'TAB', 'CR', 'LF', 'EAC', 'EACU']
+    alpha = ['a', 'A', 'b', 'B', '1', 'SP', 'SP', 'TAB', 'CR', 'LF', 'EAC', 'EACU', 'NB']
     out = []
     for i in range(n):
         f = {'cs': rng.random() < .5, 'strip': rng.random() < .5, 'stripAll': rng.random() < .5,
@@ -190,7 +199,7 @@ def rand_cases(rng, n):
             op = rng.random()
             pos = rng.randint(0, len(inp))
             if op < .5:
-                inp[pos:pos] = [rng.choice(['SP', 'TAB', 'CR', 'LF', 'SP'])] * rng.randint(1, 2)
+                inp[pos:pos] = [rng.choice(['SP', 'TAB', 'CR', 'LF', 'SP', 'NB'])] * rng.randint(1, 2)
             elif op < .7 and inp:
                 del inp[min(pos, len(inp) - 1)]
             elif op < .85 and inp:
